@@ -75,9 +75,17 @@ BigPopPart(d) ==
 \* every k of a few populations through the count-based and ratio-based entry points (the coverage of C12 is that of ci_wilson
 \* only if they all return its interval)
 FrontsPart(d) ==
-  \A n \in {100, 400, 1000} : \A li \in {10, 12} : \A ki \in 1..3 : \A k \in 0..n :
+  \A n \in {100, 400, 1000} : \A li \in {5, 10, 12} : \A ki \in 1..3 : \A k \in 0..n : (li # 5 \/ n = 100) =>
      /\ Emit(Case("ci_wilson", n, k, ki, li, k = 0, k = 0 /\ ki = 1) @@ [method |-> "wilson"])
-     /\ \A f \in {1, 2, 5} : Emit(Case(FrontEnds[f], n, k, ki, li, FALSE, FALSE) @@ [method |-> "wilson"])
+     /\ \A f \in {1, 2, 5, 11} : Emit(Case(FrontEnds[f], n, k, ki, li, FALSE, FALSE) @@ [method |-> "wilson"])
+
+\* the ratio form with rates j / 8 whose product with n is an exact tie k + 1/2, and rates that are not of the form k / n
+RatioTiePart(d) ==
+  \A n \in {4, 12, 20, 44, 100} : \A j \in 1..7 : \A li \in {8, 12} : \A ki \in 1..3 :
+     LET k == ((j * n) + 4) \div 8 IN                                     \* round half up = away from zero (positive)
+     /\ Emit(Case("ci_wilson", n, k, ki, li, TRUE, TRUE) @@ [method |-> "wilson"])
+     /\ Emit(Case("ci_wilson_ratio_raw", n, k, ki, li, FALSE, FALSE) @@ [method |-> "wilson", ratio |-> [n |-> j, p |-> -3],
+                tie |-> ((j * n) % 8 = 4)])
 
 Mults == <<1, 2, 3, 10, 100>>
 MultPart(d) ==
@@ -96,6 +104,6 @@ LevelsPart(d) ==
 
 Next == /\ ~done
         /\ done' = TRUE
-        /\ CASE Grp = "row" -> (RowPart(done) /\ BigPopPart(done)) [] Grp = "big" -> BigPopPart(done) [] Grp = "fronts" -> FrontsPart(done) [] Grp = "mult" -> MultPart(done) [] Grp = "levels" -> LevelsPart(done)
+        /\ CASE Grp = "row" -> (RowPart(done) /\ BigPopPart(done) /\ RatioTiePart(done)) [] Grp = "big" -> BigPopPart(done) [] Grp = "fronts" -> FrontsPart(done) [] Grp = "mult" -> MultPart(done) [] Grp = "levels" -> LevelsPart(done)
 Spec == Init /\ [][Next]_done
 =============================================================================
